@@ -37,6 +37,7 @@ def main():
     args = [a for a in sys.argv[1:] if not a.startswith("-")]
     patches = []
     for a in args or sorted(os.path.join(VERIF, "benign", d) for d in os.listdir(os.path.join(VERIF, "benign"))):
+        a = os.path.abspath(a)
         patches.append(a if a.endswith(".diff") else os.path.join(a, "patch.diff"))
     run(f"{VERIF}/bin/check setup")
     base, e = obligations("/repo")
